@@ -106,8 +106,7 @@ func (b *bitMask256) toTypes(reg *registry) []ID {
 	types := make([]ID, count)
 
 	totalIDs := reg.Count()
-	bins := totalIDs/wordSize + 1
-	bits := totalIDs % wordSize
+	bins := (totalIDs + wordSize - 1) / wordSize
 
 	idx := 0
 	for i := range bins {
@@ -116,7 +115,7 @@ func (b *bitMask256) toTypes(reg *registry) []ID {
 		}
 		cnt := wordSize
 		if i == bins-1 {
-			cnt = bits
+			cnt = totalIDs - i*wordSize
 		}
 		for j := range cnt {
 			id := ID{id: uint8(i*wordSize + j)}
